@@ -265,7 +265,7 @@ theorem connect_right_unfold {c other c' : Circuit} {thisC otherC : List Label} 
                 split at h
                 · cases h
                 · rename_i st hfold
-                  refine ⟨order, st, rfl, hfold, h, by simpa using hblk, by simpa using hnd, by simpa using hlen, ?_, ?_, ?_⟩
+                  refine ⟨order, st, rfl, hfold, h, by simpa using hblk, (by simp at hnd; exact hnd.2), by simpa using hlen, ?_, ?_, ?_⟩
                   · intro l hl
                     simp only [List.any_eq_true, bne_iff_ne, ne_eq, not_exists, not_and, Decidable.not_not] at hty
                     exact hty l hl
@@ -273,6 +273,26 @@ theorem connect_right_unfold {c other c' : Circuit} {thisC otherC : List Label} 
                     exact checkGatesExist_ok hc1 l hl
                   · intro l hl
                     exact checkGatesExist_ok hc2 l hl
+
+/-- a right connection that returns had no gate of `other` listed twice -/
+theorem connect_right_nodup_other {c other c' : Circuit} {thisC otherC : List Label} {name : Label} {addP : Bool} {right : Bool}
+    (h : c.connectCircuit other thisC otherC right name addP = .ok c') : nodupL otherC = true := by
+  unfold connectCircuit at h
+  split at h
+  · cases h
+  · cases hc1 : c.checkGatesExist thisC with
+    | error e => simp [hc1] at h
+    | ok u1 =>
+      simp only [hc1] at h
+      cases hc2 : other.checkGatesExist otherC with
+      | error e => simp [hc2] at h
+      | ok u2 =>
+        simp only [hc2] at h
+        split at h
+        · cases h
+        · rename_i hnd
+          simp at hnd
+          exact hnd.1
 
 theorem zip_snd_inj : ∀ (l1 l2 : List Label) (k1 k2 x : Label), l2.Nodup → (k1, x) ∈ l1.zip l2 → (k2, x) ∈ l1.zip l2 → k1 = k2 := by
   intro l1
